@@ -59,6 +59,9 @@ Definition string_of_rune (z : Z) : list N :=
 Definition int_value (c : cst) : Z :=
   match c with Num (I64 z) | Num (Big z) => z | _ => 0 end.
 
+Definition is_ordered_op (o : op) : bool :=
+  match o with OLt | OLe | OGt | OGe => true | _ => false end.
+
 (* tc.binaryOp on two constants *)
 Definition check_binary (o : op) (t1 t2 : tinfo) : eres :=
   let k1 := ti_kind t1 in
@@ -96,6 +99,7 @@ Definition check_binary (o : op) (t1 t2 : tinfo) : eres :=
       let u1 := ti_untyped t1 in
       if negb shift && negb (kind_eqb k1 k2)
          && negb (u1 && is_numeric_kind k1 && is_numeric_kind k2) then EErr CMismatch
+      else if is_ordered_op o && (is_complex_kind k1 || is_complex_kind k2) then EErr CInvalidOp
       else
         match binary_op o (ti_c t1) (ti_c t2) with
         | Err e => EErr (class_of e)
